@@ -16,6 +16,7 @@ from qiskit.primitives.containers.sampler_pub import SamplerPub
 
 from qiskit.transpiler import PassManager
 
+from dask.utils import SerializableLock
 
 
 class TranspilingSamplerV2(BaseSamplerV2):
@@ -33,6 +34,8 @@ class TranspilingSamplerV2(BaseSamplerV2):
         super().__init__()
         self._sampler = sampler
         self._pass_manager = pass_manager
+        # A PassManager must not run in several threads at once, since its passes share their state.
+        self._pass_manager_lock: SerializableLock = SerializableLock()
 
     def run(
         self, pubs: Iterable[SamplerPubLike], *, shots: Optional[int] = None
@@ -40,8 +43,10 @@ class TranspilingSamplerV2(BaseSamplerV2):
         def apply_pass_manager(pub: SamplerPubLike) -> SamplerPubLike:
             # A pub may be given as a circuit, as a tuple or as a SamplerPub, as for every other sampler.
             pub = SamplerPub.coerce(pub)
+            with self._pass_manager_lock:
+                circuit = self._pass_manager.run(pub.circuit)
             return SamplerPub(
-                circuit=self._pass_manager.run(pub.circuit),
+                circuit=circuit,
                 parameter_values=pub.parameter_values,
                 shots=pub.shots,
                 validate=False,
@@ -66,6 +71,8 @@ class TranspilingEstimatorV2(BaseEstimatorV2):
         super().__init__()
         self._estimator = estimator
         self._pass_manager = pass_manager
+        # A PassManager must not run in several threads at once, since its passes share their state.
+        self._pass_manager_lock: SerializableLock = SerializableLock()
 
     def run(
         self, pubs: Iterable[EstimatorPubLike], *, precision: Optional[float] = None
@@ -73,7 +80,8 @@ class TranspilingEstimatorV2(BaseEstimatorV2):
 
         def apply_pass_manager(pub: EstimatorPubLike) -> EstimatorPubLike:
             pub = EstimatorPub.coerce(pub)
-            circuit = self._pass_manager.run(pub.circuit)
+            with self._pass_manager_lock:
+                circuit = self._pass_manager.run(pub.circuit)
             # The pass manager may place the circuit's qubits on other (and more) physical qubits.
             # The observables must then be moved to the same physical qubits.
             observables = pub.observables
